@@ -395,6 +395,12 @@ def posassign(reps, op, version, st):
             if not (f.ok and v.ok and s.ok) or "# INVALID" in (s.value or ""):
                 raise core.Violation("valid-assignment-reported", "level %d: valid %s.%s = %r reported invalid" %
                                      (lvl, src.record_type, field, x), dtype=field, level=lvl)
+            if field == "overlaps" and (x == "*" or gfapy.is_placeholder(x)):
+                # 'all overlaps unspecified' fits every number of segments: the whole line stays valid
+                v2 = core.call(line.validate)
+                if not v2.ok:
+                    raise core.Violation("valid-assignment-reported", "level %d: valid %s.%s = %r: line.validate() raises %s" %
+                                         (lvl, src.record_type, field, x, v2.excname), dtype=field, level=lvl)
             continue
         if lvl == 3 and a.ok:
             raise core.Violation("invalid-not-reported-at-assignment", "level 3: %s.%s = %r was accepted" %
